@@ -57,7 +57,10 @@ Definition model_agrees (c : case) : bool :=
       && list_eqb api_eqb (predicted again) (mo_api again)
       && list_eqb api_eqb (predicted extend) (mo_api extend)
   | CReorder names deps order =>
-      list_eqb String.eqb (reorder (deps_of deps) (S (length deps)) names) order
+      match reorder (deps_of deps) (S (length deps)) names with
+      | Some l => list_eqb String.eqb l order
+      | None => false
+      end
   end.
 
 Definition additive (a : api) : bool :=
